@@ -207,9 +207,14 @@ class ZBOSS:
 
         response_future = self.wait_for_response(request.Rsp(partial=True))
 
-        async with self._conditional_blocking_request_lock(request.blocking):
-            return await self._send_frags(
-                fragments, response_future, timeout=timeout)
+        try:
+            async with self._conditional_blocking_request_lock(
+                    request.blocking):
+                return await self._send_frags(
+                    fragments, response_future, timeout=timeout)
+        finally:
+            # Never leave the one-shot listener behind
+            response_future.cancel()
 
     async def _send_frags(self, fragments, response_future, timeout):
         """Send frame fragments to the uart."""
